@@ -118,6 +118,28 @@ async def _bridge_life(nports: int, acts: List[str], st: dict, all_acts: List[st
                             await bridge.__aenter__()
                         else:
                             await bridge.start()
+                    elif a.startswith("cstart:"):
+                        # start() is CANCELLED while it is suspended in the create_datagram_endpoint of port k (the task is cancelled
+                        # for real at the moment that call is made; asyncio then takes back the endpoint it was creating): a start
+                        # that fails, fails - nothing may be left listening, whatever was bound before
+                        k = int(a[7:])
+                        real, calls = loop.create_datagram_endpoint, [0]
+                        task = asyncio.ensure_future(bridge.start())
+
+                        async def endpoint(*args, _real=real, _calls=calls, _k=k, _task=task, **kw):
+                            _calls[0] += 1
+                            if _calls[0] - 1 == _k:
+                                _task.cancel()
+                            return await _real(*args, **kw)
+                        loop.create_datagram_endpoint = endpoint
+                        try:
+                            await task
+                            if calls[0] > k:
+                                res = "cancelled-start-returned-normally"
+                        except asyncio.CancelledError:
+                            res = "raise_OSError"
+                        finally:
+                            del loop.create_datagram_endpoint
                     elif a in ("stop", "leave"):
                         if a == "leave":
                             await bridge.__aexit__(None, None, None)
